@@ -339,6 +339,25 @@ func Mutants(doc M, seed int64, max int) []Mutant {
 			})
 		}
 	}
+	// a null entry in each component map (and in a few other maps the loader
+	// lets through)
+	for _, kind := range []string{"schemas", "parameters", "headers", "requestBodies", "responses", "securitySchemes", "links", "examples", "callbacks"} {
+		kind := kind
+		add("null-component-entry-"+kind, []string{"components", kind}, func(d M) bool {
+			comps, ok := d["components"].(M)
+			if !ok {
+				comps = M{}
+				d["components"] = comps
+			}
+			km, ok := comps[kind].(M)
+			if !ok {
+				km = M{}
+				comps[kind] = km
+			}
+			km["VerifNull"] = nil
+			return true
+		})
+	}
 	targeted := len(out)
 	// generic mutations on a seeded sample of nodes
 	perm := rng.Perm(len(nodes))
